@@ -2,7 +2,7 @@
 arguments the document builder hands it (both halves as one equality: no false reject, no false accept)."""
 import z3
 from pyvc.values import *
-from pyvc.values import UNFOLD, ForallList, LEMMA_HOOKS
+from pyvc.values import UNFOLD, ForallList, LEMMA_HOOKS, CountList
 from pyvc.contracts import Contract, Lemma
 from pyvc.symexec import attr0, field0, LoopContract, PyFunc, PyTuple, Raise, KwBundle
 from .common import *
@@ -281,6 +281,7 @@ def _is_named(x, name):
 NoneNamed = ForallList('node_not_named', lambda x, name: z3.Not(_is_named(x, name)), param_sorts=[V])
 AllNamed = ForallList('node_named', lambda x, name: _is_named(x, name), param_sorts=[V])
 NAMED_NODE_CLASSES = [c for c in CONCRETE_NODES if T.resolve_attr(c, 'name') is not None]
+CountNamed = CountList(AllNamed)
 AllNameable = ForallList('nameable_node', lambda x: z3.And(V.is_Obj(x), z3.Or(*[V.ocls(x) == T.cid[c] for c in NAMED_NODE_CLASSES]), V.oref(x) >= 0,
                                                            z3.Or(attr0(x, 'name') == V.None_, named(x))))
 
@@ -297,17 +298,18 @@ class FindNodesByName(Contract):
 
     @property
     def filter_specs(self):
-        return {0: (AllNamed, NoneNamed, lambda en: [self.A['name']])}
+        return {0: (AllNamed, NoneNamed, lambda en: [self.A['name']], CountNamed)}
 
     def pre(self, A, st):
-        return [('nodes', z3.And(V.is_List(A['nodes']), AllNameable(V.items(A['nodes'])))), ('name', V.is_Str(A['name']))]
+        return [('nodes', z3.And(V.is_List(A['nodes']), AllNameable(V.items(A['nodes'])), AllAstNodes(V.items(A['nodes'])))), ('name', V.is_Str(A['name']))]
 
     def post(self, A, st0, out):
         if out.kind == 'raise':
             return never_raises(out)
         r = out.value
         return [('empty_iff_no_node_has_the_name', z3.And(V.is_List(r), VL.is_nil(V.items(r)) == NoneNamed(V.items(A['nodes']), A['name']))),
-                ('only_nodes_with_the_name', AllNamed(V.items(r), A['name'])), ('nodes_of_the_input', AllNameable(V.items(r))),
+                ('only_nodes_with_the_name', AllNamed(V.items(r), A['name'])), ('nodes_of_the_input', z3.And(AllNameable(V.items(r)), AllAstNodes(V.items(r)))),
+                ('as_many_as_nodes_with_the_name', length(V.items(r)) == CountNamed(V.items(A['nodes']), A['name'])),
                 ('no_longer_than_the_input', length(V.items(r)) <= length(V.items(A['nodes'])))]
 
 
@@ -339,7 +341,7 @@ class FragmentMustBeUsed(Rule):
     def pre(self, A, st):
         fs = A['fragment_spreads']
         return self.rule_pre(A) + [('fragments', z3.And(V.is_List(A['fragments']), AllFragDefs(V.items(A['fragments'])))),
-                                   ('spreads', z3.Or(fs == V.None_, z3.And(V.is_List(fs), AllSpreadNodes(V.items(fs)), AllNameable(V.items(fs)))))]
+                                   ('spreads', z3.Or(fs == V.None_, z3.And(V.is_List(fs), AllSpreadNodes(V.items(fs)), AllNameable(V.items(fs)), AllAstNodes(V.items(fs)))))]
 
     def broken(self, A):
         return z3.Not(FragmentUsed(V.items(A['fragments']), _spreads_or_empty(A)))
@@ -359,7 +361,7 @@ class FragmentSpreadTargetDefined(Rule):
 
     def pre(self, A, st):
         fs = A['fragment_spreads']
-        return self.rule_pre(A) + [('fragments', z3.And(V.is_List(A['fragments']), AllFragDefs(V.items(A['fragments'])), AllNameable(V.items(A['fragments'])))),
+        return self.rule_pre(A) + [('fragments', z3.And(V.is_List(A['fragments']), AllFragDefs(V.items(A['fragments'])), AllNameable(V.items(A['fragments'])), AllAstNodes(V.items(A['fragments'])))),
                                    ('spreads', z3.Or(fs == V.None_, z3.And(V.is_List(fs), AllSpreadNodes(V.items(fs)))))]
 
     def _inv(self, en, st, k, st0):
@@ -376,3 +378,44 @@ class FragmentSpreadTargetDefined(Rule):
 
 AllBadEntries = ForallList('undefined_spread_entry', lambda p: z3.And(V.is_Pair(p), V.is_Str(V.fst(p)), V.is_List(V.snd(p)), AllAstNodes(V.items(V.snd(p)))))
 CONTRACTS += [FragmentMustBeUsed(), FragmentSpreadTargetDefined()]
+
+
+# ---- uniqueness rules: no two nodes of the list carry the same name (arguments 5.4.2, fragments 5.5.1.1, operations 5.2.1.1, input object fields
+# 5.6.3, directives per location 5.7.3)
+NameIsUnique = ForallList('name_is_unique_in', lambda x, xs: z3.Or(attr0(x, 'name') == V.None_, CountNamed(xs, name_of(x)) <= 1), param_sorts=[VL])
+
+
+class Uniqueness(Rule):
+    """reports exactly when some name is carried by more than one node of the list"""
+    def __init__(self, fn, cls, params, list_param):
+        self.key = Q + fn + '::' + cls + '.validate'
+        self.params = params
+        self.self_class = cls
+        self.list_param = list_param
+
+    def pre(self, A, st):
+        xs = A[self.list_param]
+        return self.rule_pre(A) + [('nodes', z3.And(V.is_List(xs), AllNameable(V.items(xs)), AllAstNodes(V.items(xs)),
+                                                    z3.BoolVal(True) if self.list_param == 'operations' else AllHaveNames(V.items(xs))))]
+
+    def _inv(self, en, st, k, st0):
+        xs = V.items(self.A[self.list_param])
+        errors = V.items(en.read(st.env['errors'], st))
+        tested = V.items(en.read(st.env['already_tested'], st))
+        return {'errors_iff_a_duplicated_name_so_far': VL.is_nil(errors) == NameIsUnique(take(xs, k), xs), 'tested_names_were_reported': VL.is_nil(tested) == VL.is_nil(errors)}
+
+    @property
+    def loops(self):
+        return {0: LoopContract(self._inv)}
+
+    def broken(self, A):
+        xs = V.items(A[self.list_param])
+        return z3.Not(NameIsUnique(xs, xs))
+
+
+AllHaveNames = ForallList('node_has_a_name', lambda x: named(x))
+CONTRACTS += [Uniqueness('argument_uniqueness.py', 'ArgumentUniqueness', ['self', 'arguments', 'path'], 'arguments'),
+              Uniqueness('fragment_name_uniqueness.py', 'FragmentNameUniqueness', ['self', 'path', 'fragments'], 'fragments'),
+              Uniqueness('operation_name_uniqueness.py', 'OperationNameUniqueness', ['self', 'path', 'operations'], 'operations'),
+              Uniqueness('input_object_field_uniqueness.py', 'InputObjectFieldUniqueness', ['self', 'path', 'input_fields'], 'input_fields'),
+              Uniqueness('directives_are_unique_per_location.py', 'DirectivesAreUniquePerLocation', ['self', 'directives', 'path'], 'directives')]
